@@ -29,6 +29,9 @@ for p in allpods:
             if c.get('volumeName'): print('   VOLUME',p['name'],v['name'],'claim',v['claim'],'bound to',c['volumeName'],'terms',json.dumps((pvs.get(c['volumeName']) or {'terms':'PV DOES NOT EXIST'}).get('terms')))
             else: print('   VOLUME',p['name'],v['name'],'claim',v['claim'],'unbound, class',c.get('storageClass'),json.dumps(scs.get(c.get('storageClass'))))
 if s.get('namespaces'): print('NAMESPACES',json.dumps(s['namespaces']))
+if s.get('listFaults'): print('LIST FAULTS',json.dumps(s['listFaults']),'fired',out.get('faults'))
+if out.get('err'): print('PASS ERROR',out.get('err'))
+if s.get('defaultSpreads'): print('DEFAULT SPREADS',json.dumps(s['defaultSpreads']),'SERVICES',json.dumps(s.get('services')),'REPLICASETS',json.dumps(s.get('replicaSets')))
 for p in s['pools']: print('POOL',json.dumps({k:v for k,v in p.items() if v}))
 print('ITS',[ (i['name'],i['cpu'],i['overheadCPU'],i['pods'],[(o['zone'],o['capacityType'],o['available']) for o in i['offerings']]) for i in s['its']])
 print('DS',json.dumps(s['daemonsets']))
